@@ -222,9 +222,10 @@ def random_bld(rng, box, nch):
                 par = [round(rng.uniform(2.2, 3.0), 2), round(rng.uniform(1.0, 1.8), 2)] if inout == "in" else [round(rng.uniform(0.5, 1.0), 2), round(rng.uniform(0.6, 1.2), 2)]
             else:
                 par = [round(rng.uniform(2.2, 3.2), 2) for _ in range(3)] if inout == "in" else [round(rng.uniform(0.5, 1.0), 2) for _ in range(3)]
+            par[0] = round(par[0] + 0.001 * k, 3)     # unique fingerprint: an entry is identified by its numbers
             ents.append({"id": k, "kind": kind, "inout": inout, "mname": mname, "mlo": mlo, "mhi": mhi, "rn": rn, "rlo": rlo, "rhi": rhi,
                          "point": c0, "par": par})
-            txt.append("[ %s ]\n%s %d %d %s %.3f %.3f %.3f %s" % (kind, rn, rlo, rhi, inout, c0[0], c0[1], c0[2], " ".join("%.2f" % x for x in par)))
+            txt.append("[ %s ]\n%s %d %d %s %.3f %.3f %.3f %s" % (kind, rn, rlo, rhi, inout, c0[0], c0[1], c0[2], " ".join("%.3f" % x for x in par)))
     rw = None
     if rng.random() < 0.8:
         k += 1
